@@ -120,7 +120,9 @@ class AsyncioTransportStreamSocketAdapter(AsyncStreamTransport):
         await self.__protocol.writer_drain()
 
     async def send_all_from_iterable(self, iterable_of_data: Iterable[bytes | bytearray | memoryview]) -> None:
-        self.__transport.writelines(iterable_of_data)
+        # NOTE: transport.writelines() does not apply flow control on every Python release
+        #       (the selector transport of Python 3.12.0/3.12.1 never pauses the protocol): write() always does.
+        self.__transport.write(b"".join(iterable_of_data))
         await self.__protocol.writer_drain()
 
     async def send_eof(self) -> None:
